@@ -87,15 +87,26 @@ def candidate_mutations(root: Any) -> list[tuple[int, str]]:
         Roll,
     )
     from pytato.distributed.nodes import DistributedRecv, DistributedSend
+    from . import usertags
     out = []
     for i, e in enumerate(reachable_entities(root)):
         if isinstance(e, (Axis, ReductionDescriptor)):
             continue
         names = {f.name for f in dataclasses.fields(e)}
         if "tags" in names:
-            out.append((i, "tags"))
+            out += [(i, "tags"), (i, "tags3")]
+            try:        # through the public API, on a node of an already keyed graph
+                e.tagged(usertags.BazTag(40))
+                out += [(i, "api:tagged"), (i, "api:retagged")]
+            except Exception:       # noqa: BLE001  (this class cannot be re-tagged)
+                pass
         if "axes" in names and isinstance(e, Array) and len(e.axes) > 0:
-            out.append((i, "axes"))
+            out += [(i, "axes"), (i, "axtags3")]
+            try:
+                e.with_tagged_axis(0, usertags.BazTag(40))
+                out.append((i, "api:axis"))
+            except Exception:       # noqa: BLE001
+                pass
         if isinstance(e, Placeholder):
             out += [(i, "name"), (i, "dtype")]
         if isinstance(e, DataWrapper) and isinstance(e.data, np.ndarray) and e.data.size:
@@ -128,6 +139,22 @@ def mutate(root: Any, idx: int, what: str) -> Any:
     elif what == "axes":
         t = eqlib.foo() if eqlib.foo() not in e.axes[0].tags else usertags.BazTag(99)
         new = eqlib.replace(e, axes=(Axis(e.axes[0].tags | {t}), *e.axes[1:]))
+    elif what == "tags3":
+        from . import eqtags
+        new = eqlib.replace(e, tags=e.tags | eqtags.several(3, "p"))
+    elif what == "axtags3":
+        from . import eqtags
+        new = eqlib.replace(e, axes=(Axis(e.axes[0].tags | eqtags.several(3, "q")),
+                                     *e.axes[1:]))
+    elif what == "api:tagged":
+        new = e.tagged(usertags.BazTag(41))
+    elif what == "api:retagged":
+        # tag, key the intermediate object, tag again and remove the first tag
+        t1 = e.tagged(usertags.BazTag(42))
+        eqlib.keyof(t1)
+        new = t1.tagged(usertags.BazTag(43)).without_tags(usertags.BazTag(42))
+    elif what == "api:axis":
+        new = e.with_tagged_axis(0, usertags.BazTag(44))
     elif what == "name":
         new = eqlib.replace(e, name=e.name + "_renamed")
     elif what == "dtype":
@@ -168,13 +195,15 @@ def pick_mutations(root: Any, nmut: int, pid: str) -> list[tuple[int, str]]:
     by_what: dict[str, list] = {}
     for c in cands:
         by_what.setdefault(c[1], []).append(c)
-    for what in sorted(by_what):
+    whats = sorted(by_what)
+    rot = zlib.crc32(pid.encode()) % max(1, len(whats))
+    for what in whats[rot:] + whats[:rot]:       # another kind of change first per program
         lst = by_what[what]
         chosen.append(lst[int(rng.integers(len(lst)))])
     rest = [c for c in cands if c not in chosen]
     rng.shuffle(rest)
     chosen += [tuple(c) for c in rest]
-    return chosen[:max(nmut, min(len(by_what), nmut + 4))]
+    return chosen[:nmut + 6]
 
 
 def h_pickles(programs: list[dict]) -> dict[str, str]:
